@@ -18,6 +18,7 @@
    Partial: torn writes to the tree / bitfield / data stores are not in these theorems (a torn page or node is
    re-derived by replay: C08_replay_exact, DESIGN 5.1); tools/c07.py tears every write of every generated
    history at every byte (<= 64 bytes) or at framing/sector boundaries and random cuts, on crate and model. *)
+From HC Require Import HonestTornHistA HonestTornHistB HonestTornHistC HonestTornHist.
 From HC Require Import HonestCrash1 HonestCrash2 HonestTorn.
 From HC Require Import SoundCoreLib SoundCore ReplicaDisk1 ReplicaDisk3 ReplicaDisk5 TornReplicaA TornReplicaB TornReplica.
 From HC Require Import ClearRefine Unified1 CrashClear1 CrashClear3 TornClear TornHistory.
@@ -839,6 +840,117 @@ Theorem C07_honest_round_torn_recovers :
                 else reopens_to cr bs c dkt H' r') \/ s = Oplog /\ off < ENTRIES_OFFSET /\ collision cr t)).
 Proof. exact honest_round_torn_recovers. Qed.
 
+Theorem C07_honest_histories_with_torn_crashes :
+  forall cr : crypto,
+         crc_ok cr ->
+         (forall x : bytes, Datatypes.length (cr_hash cr x) = 32%nat) ->
+         (forall x : bytes, all_zero (cr_hash cr x) = false) ->
+         (forall x : bytes, bytes_ok (cr_hash cr x) = true) ->
+         forall bs : list bytes,
+         writer_fits bs ->
+         forall (es : list tevent) (c : core) (d : disk) (j : list sop) (ev : list event) (H : N -> bool),
+         RCInvZ cr bs c d H ->
+         thist cr bs es c {| w_disk := d; w_journal := j; w_events := ev |} ->
+         (exists (c' : core) (w' : world),
+            trun cr es c {| w_disk := d; w_journal := j; w_events := ev |} = Some (c', w') /\
+            RCInvZ cr bs c' (w_disk w') (theld_all H es) /\
+            c_keypair c' = c_keypair c /\
+            t_length (c_tree c') = tlen_all (t_length (c_tree c)) es /\
+            t_byte_length (c_tree c') = TreeRef.prefix_size bs (t_length (c_tree c')) /\
+            t_length (c_tree c) <= t_length (c_tree c') /\
+            (forall i : N, tcommitted es i -> core_has c' i = true) /\
+            (forall i : N, H i = true -> core_has c' i = true) /\
+            (forall i : N, core_has c' i = theld_all H es i) /\
+            (forall (i : N) (j2 : list sop) (ev2 : list event),
+             core_has c' i = true ->
+             core_get i c' {| w_disk := w_disk w'; w_journal := j2; w_events := ev2 |} =
+             (c', {| w_disk := w_disk w'; w_journal := j2; w_events := ev2 |}, Ok (Some (TreeRef.blk bs i))))) \/
+         (exists t : nat, collision cr t).
+Proof. exact honest_histories_with_torn_crashes. Qed.
+
+Theorem C07_honest_fresh_histories_with_torn_crashes :
+  forall cr : crypto,
+         crc_ok cr ->
+         (forall x : bytes, Datatypes.length (cr_hash cr x) = 32%nat) ->
+         (forall x : bytes, all_zero (cr_hash cr x) = false) ->
+         (forall x : bytes, bytes_ok (cr_hash cr x) = true) ->
+         forall bs : list bytes,
+         writer_fits bs ->
+         forall (kp : keypair) (es : list tevent),
+         keypair_ok kp = true ->
+         kp_secret kp = None ->
+         exists (d0 : disk) (ops0 : list sop) (c0 : core),
+           core_open cr (Some kp) false disk_empty = (d0, ops0, Ok c0) /\
+           (thist cr bs es c0 {| w_disk := d0; w_journal := []; w_events := [] |} ->
+            (exists (c' : core) (w' : world),
+               trun cr es c0 {| w_disk := d0; w_journal := []; w_events := [] |} = Some (c', w') /\
+               RCInvZ cr bs c' (w_disk w') (theld_all (fun _ : N => false) es) /\
+               t_length (c_tree c') = tlen_all 0 es /\
+               (forall i : N, tcommitted es i -> core_has c' i = true) /\
+               (forall i : N, core_has c' i = theld_all (fun _ : N => false) es i) /\
+               (forall (i : N) (j2 : list sop) (ev2 : list event),
+                core_has c' i = true ->
+                core_get i c' {| w_disk := w_disk w'; w_journal := j2; w_events := ev2 |} =
+                (c', {| w_disk := w_disk w'; w_journal := j2; w_events := ev2 |}, Ok (Some (TreeRef.blk bs i))))) \/
+            (exists t : nat, collision cr t)).
+Proof. exact honest_fresh_histories_with_torn_crashes. Qed.
+
+Theorem C07_honest_round_from_torn_tolerant_state :
+  forall cr : crypto,
+         crc_ok cr ->
+         (forall x : bytes, Datatypes.length (cr_hash cr x) = 32%nat) ->
+         (forall x : bytes, all_zero (cr_hash cr x) = false) ->
+         (forall x : bytes, bytes_ok (cr_hash cr x) = true) ->
+         forall bs : list bytes,
+         writer_fits bs ->
+         forall (f : option bool) (cw : core) (dw : disk) (bw : list bytes) (sg : bytes) 
+           (jw : list sop) (evw : list event) (c : core) (d : disk) (j : list sop) 
+           (ev : list event) (H : N -> bool) (rq : AcceptAll.request),
+         let w := N.of_nat (Datatypes.length bw) in
+         let pk := kp_public (c_keypair c) in
+         AcceptAllCore3.writer_at cr bs cw dw bw pk sg ->
+         RCInvZ cr bs c d H ->
+         t_length (c_tree c) <= w ->
+         AcceptAll.wf_request bs (c_tree c) (d_tree d) w rq ->
+         (forall vp : vproof,
+          create_valueless_proof (c_tree cw) (d_tree dw) (AcceptAll.rq_block rq) (AcceptAll.rq_hash rq)
+            (AcceptAll.rq_seek rq) (AcceptAll.rq_upgrade rq) = Ok vp ->
+          AcceptAllCore3.frame_guard cr c d (Replicate.vp_to_proof vp (AcceptAll.rq_value bs rq))) ->
+         let H' := HonestApply3.held_rq H rq in
+         let r' := match AcceptAll.rq_upgrade rq with
+                   | Some _ => w
+                   | None => t_length (c_tree c)
+                   end in
+         exists (pf : proof) (c' : core) (w' : world) (delta : list sop),
+           core_create_proof (AcceptAll.rq_block rq) (AcceptAll.rq_hash rq) (AcceptAll.rq_seek rq)
+             (AcceptAll.rq_upgrade rq) cw {| w_disk := dw; w_journal := jw; w_events := evw |} =
+           (cw, {| w_disk := dw; w_journal := jw; w_events := evw |}, Ok (Some pf)) /\
+           core_apply_proof cr f pf c {| w_disk := d; w_journal := j; w_events := ev |} = (c', w', Ok true) /\
+           w_journal w' = rev delta ++ j /\
+           apply_sops d delta = Some (w_disk w') /\
+           RCInvZ cr bs c' (w_disk w') H' /\
+           t_length (c_tree c') = r' /\
+           c_keypair c' = c_keypair c /\
+           (f = Some true -> hyg cr (f_content (d_oplog (w_disk w')))) /\
+           (forall k : nat,
+            exists dk : disk,
+              apply_sops d (firstn k delta) = Some dk /\
+              (if (k <=? rq_commit_point rq)%nat
+               then RCDiskZ cr bs pk dk H (t_length (c_tree c))
+               else RCDiskZ cr bs pk dk H' r') /\
+              (hyg cr (f_content (d_oplog d)) -> hyg cr (f_content (d_oplog dk)))) /\
+           (forall (k : nat) (o : sop) (t : nat),
+            nth_error delta k = Some o ->
+            (t < wlen o)%nat ->
+            exists dk dkt : disk,
+              apply_sops d (firstn k delta) = Some dk /\
+              apply_sop dk (tear o t) = Some dkt /\
+              (tear_safe cr dk o t ->
+               (if (k <=? rq_commit_point rq)%nat
+                then recoversRC cr bs pk dkt H (t_length (c_tree c))
+                else recoversRC cr bs pk dkt H' r') \/ is_slot_write o = true /\ collision cr t)).
+Proof. exact honest_round_ZC. Qed.
+
 Print Assumptions C07_torn_entry_is_no_frame.
 Print Assumptions C07_torn_append_recovers_before.
 Print Assumptions C07_torn_flush_before_after_or_collision.
@@ -888,3 +1000,6 @@ Print Assumptions TornReplica.scz_history_computed.
 Print Assumptions C07_honest_apply_torn_recovers.
 Print Assumptions C07_honest_apply_torn_recovers_plain.
 Print Assumptions C07_honest_round_torn_recovers.
+Print Assumptions C07_honest_histories_with_torn_crashes.
+Print Assumptions C07_honest_fresh_histories_with_torn_crashes.
+Print Assumptions C07_honest_round_from_torn_tolerant_state.
